@@ -7,6 +7,12 @@ cd harness || exit 1
 rc=0
 for d in cmd/*/; do
   n=$(basename "$d")
-  go build -tags verif -o ../.bin/"$n" ./cmd/"$n" || rc=1
+  if [ -x "$d/build.sh" ]; then
+    # built from instrumented sources; also warms the build cache for the instrumented dependency copy
+    "$d/build.sh" "$PWD/../.bin/$n" >/dev/null 2>&1 || rc=1
+    rm -rf /tmp/verif-"$n"-instr
+  else
+    go build -tags verif -o ../.bin/"$n" ./cmd/"$n" || rc=1
+  fi
 done
 exit $rc
